@@ -22,7 +22,7 @@ FALSE = ('false',)
 
 
 def norm_atom(a):
-    if a[0] in ('eq', 'R'):
+    if a[0] in ('eq', 'R', 'ceq'):
         x, y = a[1], a[2]
         if repr(y) < repr(x):
             return (a[0], y, x)
@@ -35,9 +35,14 @@ def Atom(a):
     if a is False:
         return FALSE
     a = norm_atom(a)
-    if a[0] in ('eq', 'R') and a[1] == a[2]:
+    if a[0] in ('eq', 'R', 'ceq') and a[1] == a[2]:
         return TRUE
     return ('atom', a)
+
+
+def CEq(x, y):
+    """equality of two content-level (sort Cls) terms: ('cls', out_term) | ('capp', fname, cls_term...)"""
+    return Atom(('ceq', x, y))
 
 
 def Eq(x, y):
@@ -223,6 +228,30 @@ class Z3Ctx:
         self.terms[t] = r
         return r
 
+    def cterm(self, t):
+        """content-level term (sort Cls): ('cls', out_term) = class of an output value under the configured
+        comparison; ('capp', fname, cls_terms...) = uninterpreted job behaviour on contents"""
+        r = self.terms.get(t)
+        if r is not None:
+            return r
+        if t[0] == 'cls':
+            r = self.cls(self.term(t[1]))
+        elif t[0] == 'capp':
+            args = [self.cterm(a) for a in t[2:]]
+            key = ('C', t[1], len(args))
+            f = self.funcs.get(key)
+            if f is None:
+                if args:
+                    f = z3.Function('C%s_%d' % (t[1], len(args)), *([self.Cls] * (len(args) + 1)))
+                else:
+                    f = z3.Const('C%s_0c' % t[1], self.Cls)
+                self.funcs[key] = f
+            r = f(*args) if args else f
+        else:
+            raise rt.Unsupported('content term %r' % (t,))
+        self.terms[t] = r
+        return r
+
     def formula(self, atom):
         if atom is True:
             return z3.BoolVal(True)
@@ -233,7 +262,9 @@ class Z3Ctx:
             return self.term(atom[1]) == self.term(atom[2])
         if k == 'R':
             return self.cls(self.term(atom[1])) == self.cls(self.term(atom[2]))
-        if k in ('p', 'pe', 'ps', 'present', 'present2', 'b'):
+        if k == 'ceq':
+            return self.cterm(atom[1]) == self.cterm(atom[2])
+        if k in ('p', 'pe', 'ps', 'present', 'present2', 'b', 'present3', 'kept'):
             return z3.Bool('%s_%s' % (k, '_'.join(str(x) for x in atom[1:])))
         raise rt.Unsupported('atom %r' % (atom,))
 
